@@ -105,6 +105,12 @@ def run(case, ctx):
 sens_el = {
     "int": st.integers(-(2 ** 59), 2 ** 59), "smallint": st.integers(-5, 5), "str": V.strs, "float": V.small_floats,
     "date": V.dates, "bool": st.booleans(), "none_int": st.one_of(st.none(), st.integers(-5, 5)),
+    # compound cells (serif defines their element hash itself): tuples, lists, dicts, sets of small non-negative ints
+    "tuple": st.lists(st.integers(0, 5), max_size=3).map(tuple),
+    "list": st.lists(st.integers(0, 5), max_size=3),
+    "dict": st.dictionaries(st.sampled_from(["k", "j", "q"]), st.integers(0, 5), min_size=1, max_size=2),
+    "set": st.sets(st.integers(0, 5), min_size=1, max_size=3),
+    "cells": st.one_of(st.lists(st.integers(0, 5), max_size=3).map(tuple), st.lists(st.integers(0, 5), max_size=3), st.integers(0, 5)),
 }
 
 
@@ -113,7 +119,7 @@ def sens_case(draw, tier="quick"):
     k = draw(st.sampled_from(list(sens_el)))
     n = draw(st.integers(1, 8))
     vals = draw(st.lists(sens_el[k], min_size=n, max_size=n))
-    mode = draw(st.sampled_from(["change", "change", "swap", "permute", "table_cell", "table_columns"]))
+    mode = draw(st.sampled_from(["change", "change", "swap", "permute", "table_cell", "table_columns", "twin"]))
     i, j = draw(st.integers(0, n - 1)), draw(st.integers(0, n - 1))
     new = draw(sens_el[k])
     perm = draw(st.permutations(list(range(n))))
@@ -123,15 +129,96 @@ def sens_case(draw, tier="quick"):
             "read_first": draw(st.booleans())}
 
 
+def _canon(x):
+    """hashable stand-in of a compound cell, type included (a list is not a tuple, a set is not a list)"""
+    if isinstance(x, dict):
+        return ("dict", tuple(sorted((k, _canon(v)) for k, v in x.items())))
+    if isinstance(x, (set, frozenset)):
+        return (type(x).__name__, tuple(sorted(_canon(e) for e in x)))
+    if isinstance(x, (list, tuple)):
+        return (type(x).__name__, tuple(_canon(e) for e in x))
+    return x
+
+
 def _hash_distinct(a, b):
+    """the two values are unequal and Python's hash() tells them apart (for unhashable cells: the hash of their
+    canonical hashable form, so that nothing hash() itself cannot see is demanded)"""
     try:
         return hash(a) != hash(b)
+    except TypeError:
+        pass
+    try:
+        return a != b and hash(_canon(a)) != hash(_canon(b))
     except TypeError:
         return False
 
 
+def _twin(x):
+    """an equal value of the next rung (1 -> 1.0, True -> 1, 1.5 -> 1.5+0j, a day -> its midnight): writing it over x
+    promotes the column although no position compares unequal afterwards"""
+    from datetime import datetime as _dtm, date as _d
+    if type(x) is bool:
+        return int(x)
+    if type(x) is int:
+        return float(x) if abs(x) < 2 ** 53 else None
+    if type(x) is float:
+        return complex(x)
+    if type(x) is _d:
+        return _dtm(x.year, x.month, x.day)
+    return None
+
+
+def run_twin(case, ctx):
+    """'never stale' for writes that change types but not values: the fingerprint equals that of a fresh build"""
+    vals, i = case["vals"], case["i"]
+    tw = _twin(vals[i])
+    if tw is None:
+        return
+    via = case["via"]
+    ctx.ev()
+    if via in ("table_item", "view", "attr"):
+        t = R.build_table([("a", list(vals)), ("b", list(case["other"]))])
+        if case["read_first"]:
+            t.fingerprint()
+            t.cols()[0].fingerprint()
+        try:
+            if via == "view":
+                t.cols()[0][i] = tw
+            elif via == "attr":
+                t.a[i:i + 1] = [tw]
+            else:
+                t[i, "a"] = tw
+        except Exception:  # noqa: BLE001
+            return
+        if t.fingerprint() != fresh_fp(t):
+            return ctx.fail(f"stale/table/equal-valued-overwrite/{via}/{type(vals[i]).__name__}",
+                            f"{vals}[{i}] = {tw!r} (cached={case['read_first']}): column now {list(t.cols()[0])}")
+        col = t.cols()[0]
+        if col.fingerprint() != S.Vector(list(col)).fingerprint():
+            return ctx.fail(f"stale/vector/equal-valued-overwrite/{via}/{type(vals[i]).__name__}", f"{vals}[{i}] = {tw!r}")
+    else:
+        v = S.Vector(list(vals))
+        if case["read_first"]:
+            v.fingerprint()
+        try:
+            if via == "setitem":
+                v[i] = tw
+            else:
+                v[[i]] = [tw]
+        except Exception:  # noqa: BLE001
+            return
+        if v.fingerprint() != S.Vector(list(v)).fingerprint():
+            return ctx.fail(f"stale/vector/equal-valued-overwrite/{via}/{type(vals[i]).__name__}",
+                            f"{vals}[{i}] = {tw!r} (cached={case['read_first']}): now {list(v)}")
+    ctx.label("equal_valued_overwrites")
+    if case["read_first"]:
+        ctx.nontrivial()
+
+
 def run_sens(case, ctx):
     vals, mode, i, j = case["vals"], case["mode"], case["i"], case["j"]
+    if mode == "twin":
+        return run_twin(case, ctx)
     after = list(vals)
     if mode in ("change", "table_cell"):
         after[i] = case["new"]
